@@ -466,6 +466,10 @@ func (p *G1Jac) JointScalarMultiplicationBase(a *G1Affine, s1, s2 *big.Int) *G1J
 		maxBit = k2.BitLen()
 	}
 	hiWordIndex := (maxBit - 1) / 64
+	if hiWordIndex >= fr.Limbs {
+		// k1, k2 may exceed the modulus: s[0], s[1] hold the reduced scalars
+		hiWordIndex = fr.Limbs - 1
+	}
 
 	for i := hiWordIndex; i >= 0; i-- {
 		mask := uint64(3) << 62
@@ -535,6 +539,10 @@ func (p *G1Jac) JointScalarMultiplication(p1, p2 *G1Jac, s1, s2 *big.Int) *G1Jac
 		maxBit = k2.BitLen()
 	}
 	hiWordIndex := (maxBit - 1) / 64
+	if hiWordIndex >= fr.Limbs {
+		// k1, k2 may exceed the modulus: s[0], s[1] hold the reduced scalars
+		hiWordIndex = fr.Limbs - 1
+	}
 
 	for i := hiWordIndex; i >= 0; i-- {
 		mask := uint64(3) << 62
